@@ -254,18 +254,25 @@ def search_materialize_names(clause, budget, rng):
     from lsst.daf.relation import Materialization
     engines, trees = marker_chains(2)
     trees = [t for t in trees if isinstance(t.materialized(), Materialization) and t.materialized() is not t][:3]
+    # a SQL-engine relation as well (its engine overrides materialize and wraps the result in a Select)
+    sq = R.sql.Engine(name="sq")
+    sl = sq.make_leaf({D.A}, payload=None, name="sl")
+    trees.append(sl.with_rows_satisfying(ref(D.A).gt(lit(0))))
     seen = {}
-    for n in list(range(0, 91, 3)) + [57, 58, 59, 62, 63, 64]:
-        prefix = "p" * n
+    prefixes = ["p" * n for n in list(range(0, 91, 3)) + [57, 58, 59, 62, 63, 64]] + ["tmp_", "tmp__", "__", "x__y___", "_"]
+    for prefix in prefixes:
+        n = len(prefix)
         for t in trees:
             for rep in range(2):
                 m = t.engine.materialize(t, name_prefix=prefix)
+                m = getattr(m, "skip_to", m)  # the SQL engine returns a Select around the materialization
                 if not m.name.startswith(prefix):
                     return f"materialize({t}, name_prefix={prefix!r}) is named {m.name!r}, which does not start with the prefix"
                 if m.name in seen:
                     return f"materialize({t}, name_prefix={prefix!r}) is named {m.name!r}, the name already given to {seen[m.name]}"
                 seen[m.name] = f"an earlier materialization (prefix length {n})"
             e = t.engine.materialize(t, name=prefix + "x")
+            e = getattr(e, "skip_to", e)
             if e.name != prefix + "x":
                 return f"materialize({t}, name={prefix + 'x'!r}) is named {e.name!r}"
     return None
@@ -273,8 +280,10 @@ def search_materialize_names(clause, budget, rng):
 
 def search_materialize(clause, budget, rng):
     from lsst.daf.relation import Materialization, LeafRelation, MarkerRelation
-    if "name" in clause:
-        return search_materialize_names(clause, budget, rng)
+    if "name" in clause or clause in ("any", "contract"):
+        found = search_materialize_names(clause, budget, rng)
+        if found or "name" in clause:
+            return found
     engines, trees = marker_chains(3)
     for t in trees:
         m = t.materialized()
@@ -320,6 +329,10 @@ def search_convert(fn, clause, budget, rng):
     ps += [ref(D.A).eq(lit(1)).logical_and(ref(D.Bt).gt(lit(0)), ref(D.Ct).lt(lit(2))), R.Predicate.logical_or(*[ref(t).eq(lit(2)) for t in cols]), R.LogicalAnd(()), R.LogicalOr(())]
     ps += [c.contains(x) for c in conts for x in (ref(D.A), lit(-2))]
     ps += [p.logical_not() for p in ps[-12:]]
+    # every comparison operator over a few operand pairs (equal operands included), bare and negated
+    cmps = [getattr(x, m)(y) for m in ("eq", "ne", "lt", "le", "gt", "ge")
+            for x, y in ((ref(D.A), ref(D.Bt)), (ref(D.A), lit(0)), (ref(D.A), ref(D.A)), (ref(D.A).method("__add__", ref(D.Bt)), ref(D.Ct)))]
+    ps += cmps + [c.logical_not() for c in cmps] + [c.logical_not().logical_not() for c in cmps[:6]]
     for p in ps:
         f = E.convert_predicate(p)
         for r in allrows:
@@ -356,6 +369,47 @@ def search_columns_required(cls, clause, budget, rng):
     return None if seen else "no operation of this class could be built"
 
 
+def search_diagnostics(clause, budget, rng):
+    """Random relation DAGs (sub-relations are *shared objects*, as in self-joins and chains over a common target), each checked against
+    C16 with no executor and with a truthful one answering from the direct evaluation."""
+    from lsst.daf.relation import Diagnostics
+    eng = R.iteration.Engine(name="E")
+    made = 0
+    while made < budget:
+        base = leaves(eng, 2)
+        pool = [rng.choice(base) for _ in range(2)]
+        last = None
+        for _ in range(10):
+            made += 1
+            t = last if last is not None and rng.random() < 0.4 else rng.choice(pool)  # several operations over one shared target
+            last = t
+            k = rng.random()
+            try:
+                if k < 0.6:
+                    cls = rng.choice(["Selection", "Selection", "Slice", "Slice", "Projection", "Deduplication", "Sort", "Calculation"])
+                    ops = ops_of_class(cls, t.columns)
+                    if not ops:
+                        continue
+                    new = rng.choice(ops).apply(t)
+                else:
+                    u = rng.choice(pool)
+                    new = t.chain(u) if k < 0.85 and t.columns == u.columns else t.join(u)
+            except (R.RelationalAlgebraError, ValueError, TypeError):
+                continue
+            pool.append(new)
+            rows = D.rows_of(new)
+            truthful = lambda r: bool(D.rows_of(r))  # noqa: E731
+            for name, ex in (("no executor", None), ("a truthful executor", truthful)):
+                d = Diagnostics.run(new, ex)
+                if d.is_doomed and rows:
+                    return f"{new} has rows {rows} but Diagnostics.run with {name} reports it doomed: {d.messages}"
+                if ex is not None and not rows and not d.is_doomed:
+                    return f"{new} has no rows but Diagnostics.run with a truthful executor does not report it doomed"
+                if d.is_doomed and not d.messages:
+                    return f"{new}: doomed verdict without a message ({name})"
+    return None
+
+
 def main():
     key, clause = sys.argv[1], sys.argv[2]
     budget = int(sys.argv[3]) if len(sys.argv) > 3 else 4000
@@ -363,7 +417,14 @@ def main():
     fn = key.split(":")[1]
     cls, _, meth = fn.partition(".")
     found = None
-    if fn == "Transfer.simplify":
+    if fn == "Engine.materialize" and key.startswith("sql."):
+        found = search_materialize_names(clause, budget, rng)
+        if found:
+            reproduced(f"{key} / {clause}: {found}")
+        not_reproduced(f"(bounded search, budget {budget})")
+    if fn == "Diagnostics.run":
+        found = search_diagnostics(clause, budget, rng)
+    elif fn == "Transfer.simplify":
         found = search_transfer_simplify(clause, budget, rng)
     elif fn in ("Engine.materialize", "Materialization.simplify"):
         found = search_materialize(clause, budget, rng)
